@@ -97,3 +97,44 @@ def run_c18(v):
         "small limits (candidate list shorter than the matches): only the structural requirements are asserted (one hit per value, each the best of its group, group order, inner hits within the group in inner-sort order, size)",
         "queries are match_all / term / query_string so that the candidate set is not affected by S07a",
     ]
+
+
+# ------------------------------------------------------------------------------------------------
+# C19
+# ------------------------------------------------------------------------------------------------
+MC_RESCORE = """SPECIFICATION Spec
+CONSTANT MaxHits = {hits}
+CONSTANT MaxDrops = 2
+CONSTANT AsBuilt = {asbuilt}
+INVARIANT TailOk
+INVARIANT MembersOk
+INVARIANT OrderedOk
+INVARIANT OnlyWindow
+INVARIANT NoDropSame
+CHECK_DEADLOCK FALSE
+"""
+
+
+def run_c19(v):
+    quick = v.tier == "quick"
+    mc = lib.tlc_mc("MC_Rescore.tla", _cfg("MC_Rescore_run.cfg", MC_RESCORE.format(hits=5 if quick else 6, asbuilt="FALSE")),
+                    timeout=3000, coverage=False, workers=4 if quick else None)
+    lib.require_mc_ok(mc, "MC_Rescore")
+    r = lib.tlc_mc("MC_Rescore.tla", _cfg("MC_Rescore_asbuilt_run.cfg", MC_RESCORE.format(hits=5, asbuilt="TRUE")),
+                   timeout=1200, coverage=False, workers=4)
+    lib.expect_mc_violation(r, "MC_Rescore as-built sort window (S19a)", {"TailOk"})
+    s = _drive(v, "rescore", "random", {"C19"}, ["--scenarios", 12 if quick else 200, "--requests", 40 if quick else 80])
+    v.coverage.update({
+        "states": mc["distinct"], "transitions": mc["states"],
+        "traces_validated_against_impl": s["scenarios"], "requests_judged": s["requests"],
+        "mc_bounds": f"every ranked list of <={5 if quick else 6} hits x outcome keep/up/down/drop per hit (<=2 drops) x window_size 0..MaxHits+2",
+        "as_built_sort_window_refuted_by_model": True,
+        "samples": s["samples"], "exhaustive": False,
+    })
+    v.assumptions += [
+        "the initial ranking is the observed response of the same request without `rescore` (judged by C10); both requests use a limit that covers every match, so the candidate list is the whole ranking",
+        "window_size ranges over 0..matches+5; all score modes (total, multiply, sum, max, min, default)",
+        "absolute score oracle (combination of the observed original score with Rank.tla's BM25 score of the rescore query, min_score rejections) only for corpora without deletions and rescore queries without function scores other than function_score{functions: [], min_score}; tolerance 1 % + 0.002, rejections are not asserted within that tolerance of min_score",
+        "otherwise structural: tail untouched (scores, order, behind the window), window membership, unmatched window hits keep their score, window ordered by the sort plan with its new observed scores",
+        "small limits: the rescored request under limit k must return the first k hits of the covering response only when window_size <= k+1 and nothing was dropped (README is silent on windows beyond the candidate list)",
+    ]
